@@ -186,6 +186,10 @@ structure Plan where
   order : List Nat        -- source axes in result order
   deriving Repr
 
+/-- lengths of the list selectors -/
+def lstLens (sels : List Sel) : List Nat :=
+  sels.filterMap fun s => match s with | .lst ks => some ks.length | _ => none
+
 /-- integers and slices only (lists are bounds-checked by NumPy in a second phase) -/
 def selOfBasic (n : Nat) : Item → Except Err Sel
   | .list _ => .ok (.lst [])
@@ -204,8 +208,7 @@ def plan (shape : List Nat) (ix : List Item) : Except Err Plan :=
     match mapMExcept (fun (p : Nat × Item) => selOf p.1 p.2) (shape.zip its) with
     | .error e => .error e
     | .ok sels =>
-      let lens := (sels.filterMap fun s => match s with | .lst ks => some ks.length | _ => none)
-      match lens with
+      match lstLens sels with
       | l0 :: l1 :: rest =>
           -- two or more lists: NumPy broadcasts them against each other (pointwise indexing);
           -- not an axis selection. IndexError if the lengths do not broadcast.
@@ -213,8 +216,7 @@ def plan (shape : List Nat) (ix : List Item) : Except Err Plan :=
           if nonOne.all (fun l => l = nonOne.headD 1) then .ok ⟨its, sels, []⟩ else .error .index
       | _ => .ok ⟨its, sels, npOrder (advSeparated ix) its⟩
 
-def Plan.multiList (p : Plan) : Bool :=
-  decide ((p.sels.filter fun s => match s with | .lst _ => true | _ => false).length ≥ 2)
+def Plan.multiList (p : Plan) : Bool := decide ((lstLens p.sels).length ≥ 2)
 
 def Plan.shape (p : Plan) : List Nat := p.order.map fun ax => (p.sels.getD ax default).len
 
